@@ -230,12 +230,15 @@ fn body_bytes(b: &BodyKind) -> Option<(Vec<u8>, &'static str, Option<String>)> {
         }
         BodyKind::Form(u) => Some((encode_form(u).into_bytes(), "application/x-www-form-urlencoded", Some(js(u)))),
         BodyKind::FormCorrupt(u, how) => {
-            let s = match how % 3 {
-                0 => format!("age={}", u.age),
-                1 => format!("name={}&age=abc", enc(&u.name)),
-                _ => format!("name={}&age=999", enc(&u.name)),
+            let s = match how % 5 {
+                0 => format!("age={}", u.age).into_bytes(),
+                1 => format!("name={}&age=abc", enc(&u.name)).into_bytes(),
+                2 => format!("name={}&age=999", enc(&u.name)).into_bytes(),
+                // bytes that are not UTF-8, unescaped: no `String` can be made of them
+                3 => [b"name=".as_slice(), &[0xFF, 0xFE], format!("&age={}", u.age).as_bytes()].concat(),
+                _ => [b"name=caf".as_slice(), &[0xE9], format!("&age={}", u.age).as_bytes()].concat(),
             };
-            Some((s.into_bytes(), "application/x-www-form-urlencoded", None))
+            Some((s, "application/x-www-form-urlencoded", None))
         }
         BodyKind::Multipart(m) => Some((encode_multipart(m), "multipart/form-data", Some(js(m)))),
         BodyKind::Text(t) => Some((t.as_bytes().to_vec(), "text/plain", Some(t.clone()))),
@@ -376,7 +379,7 @@ impl Property for C07 {
     fn in_domain(&self, case: &Case) -> bool {
         match case {
             Case::Int { segment, .. } | Case::Str { segment, .. } => segment_ok(segment),
-            Case::Extract { param, raw_query, .. } => segment_ok(param) && raw_query.as_ref().map_or(true, |q| q.bytes().all(|b| b > 0x20 && b < 0x7f && b != b'#')),
+            Case::Extract { param, raw_query, .. } => segment_ok(param) && raw_query.as_ref().map_or(true, |q| q.chars().all(|c| (c > ' ' && c < '\u{7f}' && c != '#') || ('\u{80}'..='\u{ff}').contains(&c))),
         }
     }
     fn strategy(&self, _tier: Tier) -> BoxedStrategy<Case> {
@@ -385,13 +388,13 @@ impl Property for C07 {
             4 => j_strategy().prop_map(BodyKind::Json),
             2 => (j_strategy(), 0u8..6).prop_map(|(j, h)| BodyKind::JsonCorrupt(j, h)),
             3 => u_strategy().prop_map(BodyKind::Form),
-            1 => (u_strategy(), 0u8..3).prop_map(|(u, h)| BodyKind::FormCorrupt(u, h)),
+            1 => (u_strategy(), 0u8..5).prop_map(|(u, h)| BodyKind::FormCorrupt(u, h)),
             2 => mp_strategy().prop_map(BodyKind::Multipart),
             2 => "\\PC{0,40}".prop_map(BodyKind::Text),
             1 => Just(BodyKind::TextInvalidUtf8),
         ];
         let ct = prop_oneof![5 => Just(CtKind::Exact), 2 => Just(CtKind::WithParams), 1 => Just(CtKind::Other), 1 => Just(CtKind::Missing), 1 => any::<u8>().prop_map(CtKind::Prefix)];
-        let raw_query = prop::option::weighted(0.2, prop_oneof![Just("n=5".to_string()), Just("a=x&n=abc".to_string()), Just("a=x&n=4294967296".to_string()), Just("a".to_string()), Just("a=1&a=2".to_string())]);
+        let raw_query = prop::option::weighted(0.2, prop_oneof![Just("n=5".to_string()), Just("a=x&n=abc".to_string()), Just("a=x&n=4294967296".to_string()), Just("a".to_string()), Just("a=1&a=2".to_string()), Just("a=\u{ff}\u{fe}&n=1".to_string()), Just("a=caf\u{e9}".to_string()), Just("a=x\u{c3}".to_string())]);
         prop_oneof![
             4 => (0u8..10, any::<bool>(), int_segment(), prop::bool::weighted(0.3)).prop_map(|(ty, second, segment, extra)| Case::Int { ty, second, segment, extra }),
             2 => (0u8..3, any::<bool>(), str_segment(), prop::bool::weighted(0.3)).prop_map(|(kind, second, segment, extra)| Case::Str { kind, second, segment, extra }),
@@ -537,7 +540,23 @@ impl Property for C07 {
                     }
                 }
                 let payload = bb.as_ref().map(|b| b.0.as_slice()).filter(|b| !b.is_empty());
-                let o = match run(method, &target, &headers, payload) {
+                // (a hand-written query may hold characters U+0080–U+00FF: each stands for the single byte of that value, so
+                // that the target on the wire is not UTF-8)
+                let latin1 = raw_query.as_ref().map_or(false, |q| !q.is_ascii());
+                let ran_req = if latin1 {
+                    obs.label("query-bytes-not-utf8");
+                    let bytes = drive::request_bytes(method, "\u{1}", &headers, payload);
+                    let tb: Vec<u8> = target.chars().map(|c| c as u32 as u8).collect();
+                    let at = bytes.iter().position(|b| *b == 1).expect("harness: placeholder");
+                    let mut b2 = bytes[..at].to_vec();
+                    b2.extend_from_slice(&tb);
+                    b2.extend_from_slice(&bytes[at + 1..]);
+                    let _ = take_log();
+                    drive::request_prebuilt(&self.router, method, b2)
+                } else {
+                    run(method, &target, &headers, payload)
+                };
+                let o = match ran_req {
                     Ok(o) => o,
                     Err(e) => {
                         obs.fail("malformed-response", e);
@@ -560,6 +579,8 @@ impl Property for C07 {
                     Some(None) => Some(None), // no query string at all: `a` is missing → invalid for Query<Q>
                     None => match raw_query.as_deref() {
                         Some("n=5") | Some("a") | Some("a=x&n=abc") | Some("a=x&n=4294967296") => Some(None),
+                        // no String can be made of bytes that are not UTF-8
+                        Some(q) if !q.is_ascii() => Some(None),
                         _ => None, // duplicate keys: unspecified
                     },
                 };
